@@ -27,6 +27,10 @@ ASSUMPTIONS = [
 
 LETTERS = ["eo", "ef", "co", "cf", "ro", "rn"]
 PATTERNS = {"own": lambda i: "o", "alt": lambda i: "of"[i % 2], "foreign-first": lambda i: "f" if i < 3 else "o"}
+# j foreign messages in front of the own ones: own messages at every position around the
+# multiples of the 10-name fetch window
+for _j in (8, 9, 10, 11, 18, 19, 20, 21):
+    PATTERNS[f"f{_j}"] = (lambda j: (lambda i: "f" if i < j else "o"))(_j)
 CONSUME_BUDGET = 1.5
 
 
@@ -91,6 +95,13 @@ def words(tier):
         for mode in ("single", "dual"):
             out.append(dict(kind=kind, prefix=None, k=0, maxlen=maxlen, mode=mode))
             for pat in PATTERNS:
+                if pat.startswith("f") and pat[1:].isdigit():
+                    j = int(pat[1:])
+                    if mode == "dual":
+                        continue
+                    for k in (j + 1, j + 2, j + 3):
+                        out.append(dict(kind=kind, prefix=pat, k=k, maxlen=3 if tier == "quick" else 4, mode=mode))
+                    continue
                 for k in range(1, 14):
                     if tier == "quick" and k in (4, 5, 6, 7, 8):
                         continue
